@@ -121,7 +121,21 @@ def k_seq(run, case):
     arr2 = {"p": arr["p"] + rng.normal(size=(n, 3)), "R": arr["R"], "t": arr["t"]}
     stamped = bool(rng.random() < .7)
     smode = "se3" if rng.random() < .5 else "xyzq"
-    tr = gen.make_evo(arr, smode, stamped)
+    # positions as the user may hand them over: float64, integer grid (Python ints) or float32
+    dt = case.get("dtype") or ["float64", "float64", "float64", "int", "float32"][rng.integers(5)]
+    if dt != "float64":
+        smode = "xyzq"
+        if dt == "int":
+            arr["p"] = np.round(arr["p"] - arr["p"][0]).astype(np.int64)
+        else:
+            arr["p"] = arr["p"].astype(np.float32)
+        from evo.core.trajectory import PosePath3D, PoseTrajectory3D
+        q = gen.quats_of(arr["R"])
+        tr = PoseTrajectory3D(arr["p"].tolist() if dt == "int" else arr["p"].copy(), q, arr["t"].copy()) if stamped \
+            else PosePath3D(arr["p"].tolist() if dt == "int" else arr["p"].copy(), q)
+        arr["p"] = arr["p"].astype(np.float64)  # exact
+    else:
+        tr = gen.make_evo(arr, smode, stamped)
     tr2 = gen.make_evo(arr2, smode, stamped)
     mode_name = case.get("mode") or MODES[rng.integers(7)]
     mode = plot.PlotMode[mode_name]
@@ -134,7 +148,8 @@ def k_seq(run, case):
     if "seq" in case:
         seq = case["seq"]
     run.seen(case, core.digest(arr["p"], mode_name, unit_name, seq, stamped), cls=["mode:" + mode_name, "unit:" + unit_name,
-                                                                                 "stamped" if stamped else "path"] +
+                                                                                 "stamped" if stamped else "path",
+                                                                                 "positions dtype:" + dt] +
              ["call:" + f for f in set(seq)], sample={"n": n, "mode": mode_name, "unit": unit_name, "sequence": seq,
                                                       "stamped": stamped})
     P, R, T = arr["p"], arr["R"], arr["t"]
@@ -249,7 +264,11 @@ def k_seq(run, case):
                           key="speeds:wrong-x")
                 if ok:
                     y = np.asarray(calls[0][1][1], dtype=float)
-                    run.check(y.shape == seg.shape and bool(np.all(np.abs(y - seg) <= 1e-9 * (np.abs(seg) + 1e-300) + 1e-12)),
+                    # float32 positions are differenced in float32 by evo: single-precision speeds
+                    rel = 1e-9 if dt != "float32" else 1e-4
+                    mag = float(np.max(np.abs(P))) / float(np.min(np.diff(T)))
+                    run.check(y.shape == seg.shape and bool(np.all(np.abs(y - seg) <= rel * (np.abs(seg) + 1e-300) + 1e-12 +
+                                                                   (0 if dt != "float32" else 1e-6 * mag))),
                               "speed plot shows the speeds", case, "%s: y data are not the speeds" % where,
                               key="speeds:wrong-y")
             elif f == "error_array":
@@ -313,6 +332,8 @@ KINDS = {"seq": k_seq}
 def main(run):
     corpus = [{"mode": m, "unit": u, "seq": ["traj", "traj_colormap", "markers", "edges", "frames"]}
               for m in MODES for u in ("m", "km")]
+    corpus += [{"seq": ["edges", "traj", "traj_colormap", "frames", "traj_xyz"], "dtype": d, "mode": m}
+               for d in ("int", "float32") for m in ("xy", "zx", "xyz")]
     corpus += [{"seq": ["speeds", "traj_xyz", "speeds", "traj_rpy", "traj_xyz"]},
                {"seq": ["traj_xyz", "traj_rpy", "speeds", "error_array"]}]
     for i in run.mine(len(corpus)):
